@@ -118,7 +118,10 @@ def gen_pom(rng):
 
 
 STR_KINDS = ["single", "double", "parenSingle", "parenDouble", "parenSingleClosure"]
-OTHER_KINDS = ["map", "project", "parenProject", "fileTree", "gstring", "files"]
+MULTI_KINDS = ["multi", "parenMulti"]
+OTHER_KINDS = ["map", "project", "parenProject", "fileTree", "gstring", "files", "nocolon", "platform",
+               # statements inside the dependencies block that are no entries at all
+               "def", "assign", "ifblock", "constraints", "call"]
 
 
 def gen_gradle(rng):
@@ -133,8 +136,30 @@ def gen_gradle(rng):
         conf = rng.choice(CONFS)
         g, a = rng.choice([x for x in GROUPS if "$" not in x]), rng.choice(ARTS)
         v = rng.choice([":1.0", ":2.3.4.RELEASE", ""])
-        kind = rng.choice(STR_KINDS) if rng.random() < 0.7 else rng.choice(OTHER_KINDS)
+        r_k = rng.random()
+        kind = rng.choice(STR_KINDS) if r_k < 0.6 else rng.choice(MULTI_KINDS) if r_k < 0.7 else rng.choice(OTHER_KINDS)
         text = g + ":" + a + v
+        texts = None
+        if kind in MULTI_KINDS:
+            texts = [text] + ["%s:%s%s" % (rng.choice([x for x in GROUPS if "$" not in x]), rng.choice(ARTS), rng.choice([":1", ""]))
+                              for _ in range(rng.choice([1, 2]))]
+            q = rng.choice(["'", '"'])
+            joined = ", ".join(q + t + q for t in texts)
+            body.append(("    %s %s" if kind == "multi" else "    %s(%s)") % (conf, joined))
+        elif kind == "nocolon":
+            body.append("    %s 'libs'" % conf)
+        elif kind == "platform":
+            body.append("    %s platform('%s')" % (conf, text))
+        elif kind == "def":
+            body.append("    def ver = '1.0'")
+        elif kind == "assign":
+            body.append("    ver = 3")
+        elif kind == "ifblock":
+            body.append("    if (flag) {\n        %s '%s'\n    }" % (conf, text))
+        elif kind == "constraints":
+            body.append("    constraints {\n        %s '%s'\n    }" % (conf, text))
+        elif kind == "call":
+            body.append("    println('%s')" % text.replace(":", " "))
         if kind == "single":
             body.append("    %s '%s'" % (conf, text))
         elif kind == "double":
@@ -157,9 +182,11 @@ def gen_gradle(rng):
             body.append("    %s files('libs/a.jar')" % conf)
         elif kind == "gstring":
             body.append('    %s "%s:%s:${ver}"' % (conf, g, a))
-        stmts.append({"conf": conf, "kind": kind, "text": text})
+        stmts.append({"conf": conf, "kind": kind, "text": text, "texts": texts or []})
         if kind in STR_KINDS:
             exp.append({"GroupId": g, "ArtifactId": a, "Scope": conf})
+        for t in texts or []:
+            exp.append({"GroupId": t.split(":")[0], "ArtifactId": t.split(":")[1], "Scope": conf})
     lines.append("dependencies {\n" + "\n".join(body) + "\n}")
     for blk in rng.sample(["test {\n    useJUnitPlatform()\n}", "sourceCompatibility = '1.8'"], rng.choice([0, 1])):
         lines.append(blk)
